@@ -481,8 +481,8 @@ pub fn def(tier: Tier) -> PropertyDef {
         rule: "A: byte string (0..200) split into 1..6 volumes (empty ones included) -> SeekableChain over Cursors vs one Cursor over the concatenation under op sequences read(n) (until n or end), single read, seek(Start|Current|End) with in-range targets (same position, same bytes); out-of-range seeks only: no panic and later in-range seeks behave. B: zip archives (hand-written stored writer allowing duplicate/hostile names; deflate via the zip crate) with 1..8 members: nested, './', '//', spaces, unicode, glob characters, '../', 'd/../../', absolute (existing and not existing), directories, empty members; optionally split into .zip.001.. volumes on disk; calls list_archive_contents, extract_to_dir (with/without filter), extract_archives with 9 glob patterns. Oracle: listing = member names, reported paths exist below the target dir, bytes = member bytes, reported set = matching members with inside names, directory snapshot shows nothing created/changed outside. Non-trivial: A >=2 non-empty volumes and a boundary crossed after a backward seek; B >=2 members and (extract all or a proper subset selected).",
         assumptions: vec!["seeks to targets outside [0,len] are outside the equivalence (std leaves them implementation defined)", "for duplicated member names the extracted content may be either member's bytes", "glob crate trusted for the expected selection"],
         subs: vec![
-            sub("chain_vs_cursor", tier.pick(150_000, 4_000_000), chain, chain_check).rates(&[("empty_volume", 0.2), ("ge2_volumes", 0.5), ("boundary_crossed_after_backward_seek", 0.2)]).boxed(),
-            sub("zip_extraction", tier.pick(12_000, 300_000), zipc, zip_check).rates(&[("hostile_name", 0.3), ("multi_volume", 0.3), ("proper_subset_selected", 0.15), ("extract_archives", 0.2), ("duplicate_name", 0.1)]).boxed(),
+            sub("chain_vs_cursor", tier.pick(800_000, 10_000_000), chain, chain_check).rates(&[("empty_volume", 0.2), ("ge2_volumes", 0.5), ("boundary_crossed_after_backward_seek", 0.2)]).boxed(),
+            sub("zip_extraction", tier.pick(40_000, 600_000), zipc, zip_check).rates(&[("hostile_name", 0.3), ("multi_volume", 0.3), ("proper_subset_selected", 0.15), ("extract_archives", 0.2), ("duplicate_name", 0.1)]).boxed(),
         ],
         workers: 16,
     }
